@@ -1,25 +1,28 @@
 # C20 -- array objects keep their invariants under construction / resize / copy / assign
 META = dict(
     level='proof',
-    level_text='For ndarray_t<static_vector<float,6>, static_vector<size_t,4>> (row-major; buffer bounded by 6, dimension bounded by 4, every 64-bit extent) each operation is proved by CBMC (dfcc) from an ARBITRARY object state (any data_/shape_/strides_/offset_ contents with lengths within capacity): default construction establishes Inv (element count == product of shape, strides == row-major strides, offset functor consistent, equal lengths); resize returns true => Inv(new) and shape == argument, returns false => all five components unchanged; copy construction and assignment reproduce the source state. Every code loop (product, stride, compute_strides, the copy loops of resize / row_major_offset_t::operator= / static_vector::operator=) is closed by a loop contract, so the result holds for every operation history by induction. On the unchanged tree the refusal clause holds outside the recorded defect region.',
-    level_note='Products are uninterpreted (mode uf) with sound axioms: "product of the shape" is the machine product (mod 2^64). The helper verif_nd_mk (object from components) is proved once and used through its contract. Trusted: clang AST, cxx2c rendering, CBMC.',
+    level_text='Generic ndarray_t<static_vector<float,6>, static_vector<size_t,4>> in both layouts (buffer bounded by 6, dimension bounded by 4, every 64-bit extent) and the legacy hybrid_ndarray<float,6,2>: each operation is proved by CBMC (dfcc) from an ARBITRARY object state (any data_/shape_/strides_/offset_ contents with lengths within capacity). Default construction establishes Inv (element count == product of shape; strides_ == row-major strides of shape_; offset functor == shape/strides for row-major, reversed shape / products of the leading extents for column-major; equal lengths); resize returns true => Inv(new) and shape == argument, returns false => every component of the object unchanged; copy construction and assignment (row-major) reproduce the source state. All symbolic-trip loops (product, stride, compute_strides, reverse, the copy loops of resize / offset functor operator= / static_vector::operator=) are closed by loop contracts; the rank-2 std::array helper loops of hybrid_ndarray have a compile-time trip count and are unwound. Holds for every operation history by induction over Inv. The refusal clause failed on the original tree (resize committed shape_ before validating; confirmed by native replay) - recorded as known finding / fixed by the validate-then-commit patch.',
+    level_note='Products are uninterpreted (mode uf) with sound axioms: "product of the shape" is the machine product (mod 2^64) and a column-major stride is the product S[g-1]*...*S[0] in the order the code folds it (any order is equal for the machine operator; associativity is not derived by the tool). Column-major units are modular: index::product / compute_strides / reverse are proved against function contracts for an arbitrary argument and used through them; verif_nd_mk / verif_ndc_mk (object from components) likewise. Trusted: clang AST, cxx2c rendering, CBMC.',
     trusted_base=[
-        'clang 14 front end (AST of the instantiated templates)', 'engine/cxx2c.py (C++ AST -> C rendering)',
-        'cbmc 6.11.0 / goto-instrument --dfcc (contract instrumentation, SAT back end)',
-        'entry wrappers build the ndarray from plain components (inst/c20.cpp put4/put6, verif_nd_mk, itself under contract)',
+        'clang 14 front end (AST of the instantiated templates)', 'engine/cxx2c.py (C++ AST -> C rendering; translation validation agrees on random inputs for all three insts)',
+        'cbmc 6.11.0 / goto-instrument --dfcc (contract instrumentation and replacement, SAT back end)',
+        'C model of std::array<T,N> ({_M_elems[N]}) for hybrid_ndarray',
+        'entry wrappers build the ndarray from plain components (inst/c20*.cpp put4/put6, verif_nd_mk / verif_ndc_mk, themselves under contract)',
     ],
     assumptions=[
         'UF mode: unsigned long * is an uninterpreted function constrained by the axioms in models/prelude.h (each a theorem of machine arithmetic)',
-        'ghost traces PP / HP (folds of product / stride over the requested shape) are functional definitions assumed in the precondition; unit nd.mk assumes them for the default shape (1) in its harness (ghost-only assumption)',
+        'ghost traces PP / HP (folds of product / stride over a shape) are functional definitions assumed in the precondition (row-major units) or in the unit harness for the helper-contract units; unit nd.mk assumes them for the default shape (1) in its harness (ghost-only assumptions)',
         'representation invariants of the bounded vectors (size_ <= capacity) are preconditions (C19)',
         'configuration: -DNDEBUG, STL enabled',
     ],
     not_covered=[
-        'column-major layout, fixed-buffer / fixed-shape / clipped-shape / dynamic (std::vector) ndarray kinds (the other ndarray_t instantiations)',
-        'legacy classes fixed_ndarray, hybrid_ndarray, dynamic_ndarray (resize / operator=)',
+        'the other ndarray_t kinds: fixed buffer, fixed / clipped / constant shape, dynamic (std::vector) buffer or shape; the clipped-shape checks in resize still run after data_.resize',
+        'legacy fixed_ndarray and dynamic_ndarray (resize / operator=); hybrid_ndarray copy/assign and other ranks',
+        'copy / assignment of the column-major instantiation',
         'cast / cast_kind, mutable views (mutable_slice / reshape / flatten / ref), element access operator() (C02)',
         'extents whose product exceeds 2^64 (resize((2^32,2^32)) is accepted with 0 elements: modular product)',
         'contents of data_ after an accepted resize (the property only constrains the refused case)',
+        'ndarray_t::strides_ of a column-major array holds ROW-major strides (only offset_.strides_ follows the layout); specified as such, not judged',
     ],
 )
 MK = ['verif_nd_mk']
